@@ -184,6 +184,34 @@ theorem handshake_defers_in_order (c : HConn) (f : List Port) (rs : List (Nat ×
   rw [hs_statuses]
   simp [hsFinish]
 
+/-- **view_at_connection_up** — what a `ConnectionUp` / `FeaturesReceived` handler sees.  `_finish_connecting` raises both events
+before it hands the deferred port statuses to `handle_PORT_STATUS`, so at that moment, whatever statuses `rs` arrived during the
+handshake, `con.ports` and `con.original_ports` are exactly the features reply: none of `rs` is applied yet.  The statuses are
+then dispatched one by one, and at the k-th replayed `PortStatus` event the view is the features reply with the first k of them
+applied in order (`handshake_defers_in_order` is the end of that sequence).  So the view always equals the reported ports with
+the notifications *dispatched so far* folded in — it lags behind the notifications *received* only inside `_finish_connecting`,
+between ConnectionUp and the last replayed event.  This is the code's stated design (comment at of_01.py:341-343); C17 reads
+"notifications applied in order" relative to dispatch (see the check's assumptions). -/
+theorem view_at_connection_up (c0 : HConn) (f : List Port) (rs : List (Nat × Port)) :
+    let c := (rs.map (fun x => HMsg.status x.1 x.2)).foldl hsStep (hsStep c0 (.features f))
+    hsUpView c = featuresReply c0.view f ∧
+    (∀ k, getItemC (hsUpView c).chain (.no k) = Spec17.init f k) ∧ (hsUpView c).orig.ports = f ∧
+    (∀ k, k ∈ keysC (hsUpView c).chain ↔ (Spec17.init f k).isSome) ∧
+    hsReplayViews c = (List.range rs.length).map
+        (fun i => (rs.take (i + 1)).foldl (fun v x => portStatus v x.1 x.2) (featuresReply c0.view f)) := by
+  intro c
+  have hc : c = ⟨some ([] ++ rs), featuresReply c0.view f⟩ := by
+    show (rs.map _).foldl hsStep (hsStep c0 (.features f)) = _
+    simp only [hsStep]
+    rw [hs_statuses]
+  have hv : hsUpView c = featuresReply c0.view f := by rw [hc]; rfl
+  obtain ⟨h1, h2, _, _, _, _, h7, _⟩ := ports_refine c0.view f []
+  refine ⟨hv, ?_, ?_, ?_, ?_⟩
+  · rw [hv]; exact h1
+  · rw [hv]; exact h7
+  · rw [hv]; exact h2
+  · rw [hc]; simp only [hsReplayViews, List.nil_append]; exact scanStatus_eq _ rs
+
 /-- **own_entries_unique** — in every reachable state the delta layer of `con.ports` holds at most one port per number, so
 the loop "first port of `_ports` with this number" (of_01.py:649-651) cannot depend on the iteration order of the set. -/
 theorem own_entries_unique (v0 : View) (f : List Port) (h : List Notif) :
@@ -287,6 +315,10 @@ example : ([pA, pB].map (fun p => p.no)).Nodup := by decide
 example : hsFinish ([HMsg.status 1 pA, .features [pA, pB], .status 1 pB, .status 2 pA'].foldl hsStep HConn.init) =
     runNotifs (featuresReply View.init [pA, pB]) [.delete pB, .modify pA'] := by decide
 example : copyC vRename.chain = some ⟨[pA', pB], []⟩ := by decide
+/-- port 2 deleted during the handshake: the ConnectionUp handler still sees it; the first replayed event's handler does not -/
+example : getItemC (hsUpView ([HMsg.features [pA, pB], .status 1 pB].foldl hsStep HConn.init)).chain (.no 2) = some pB ∧
+    (hsReplayViews ([HMsg.features [pA, pB], .status 1 pB].foldl hsStep HConn.init)).map
+      (fun v => getItemC v.chain (.no 2)) = [none] := by decide
 
 /-! ## statistics -/
 
@@ -358,10 +390,16 @@ theorem stats_two_requests (s : List Part) (hs : ∀ p ∈ s, WellTyped p) (x1 t
           [.event ⟨t2, (i2 ++ [l2]).flatten, List.replicate (i2.length + 1) x2⟩]) :=
   ⟨stats_no_merge s hs x1 t1 i1 l1 h1, stats_no_merge s hs x2 t2 i2 l2 h2⟩
 
-/-- **raw_event_exactly_for_stats** — `RawStatsReply` is raised for every statistics message (complete or not) and for no
-other message. -/
-theorem raw_event_exactly_for_stats (m : Msg) : (∀ p, rawOf m = some p ↔ m = .stats p) := by
-  intro p; cases m <;> simp [rawOf]
+/-- **raw_event_exactly_for_stats** — over the run of any message sequence from any connection state: `RawStatsReply` is raised
+once for every statistics message, in order, carrying that very message (complete or not, whatever is being assembled), and
+for no other message. -/
+theorem raw_event_exactly_for_stats (c : Conn) (ms : List Msg) :
+    (runConn c ms).2.map (fun st => st.raw) = ms.map (fun m => match m with | .stats p => some p | _ => none) := by
+  induction ms generalizing c with
+  | nil => rfl
+  | cons m ms ih =>
+    simp only [runConn, List.map_cons, ih]
+    cases m <;> rfl
 
 /-- **stats_never_raises** — the repaired assembly never raises, in any state, for any part (the unrepaired one raises
 `AttributeError` / `IndexError`, see the witnesses below). -/
@@ -382,15 +420,18 @@ theorem stats_never_raises (st : Pending) (p : Part) (x : Exc) : (incoming st p)
 /-- **other_messages_frame** — messages that are neither port messages nor statistics replies change neither picture; port
 messages do not touch the assembly and statistics replies do not touch the port view: the view after any message sequence
 is the view after its port messages, the assembly state is the one after its statistics parts, and every non-statistics
-message is handled without raising an event. -/
+message is handled without raising an event.  (This holds by construction of `deliver` — the `.other` branch returns the
+state unchanged, the two other branches write disjoint fields; it records how the model is composed and lets the theorems
+about `run`/`runStats` be read on mixed streams.  That the real handlers of the other message kinds indeed leave
+`con.ports` and `_previous_stats` alone is established only by the differential run.) -/
 theorem other_messages_frame (c : Conn) (ms : List Msg) :
     (runConn c ms).1.view = PortView.run c.view (ms.filterMap (fun m => match m with | .port x => some x | _ => none)) ∧
     (runConn c ms).1.pending =
       (runStats c.pending (ms.filterMap (fun m => match m with | .stats p => some p | _ => none))).1 ∧
-    (ms.zip (runConn c ms).2).filterMap (fun x => match x.1 with | .stats p => some (p, x.2) | _ => none) =
+    (ms.zip (runConn c ms).2).filterMap (fun x => match x.1 with | .stats p => some (p, x.2.out) | _ => none) =
       (ms.filterMap (fun m => match m with | .stats p => some p | _ => none)).zip
         (runStats c.pending (ms.filterMap (fun m => match m with | .stats p => some p | _ => none))).2 ∧
-    (∀ x ∈ ms.zip (runConn c ms).2, (∀ p, x.1 ≠ .stats p) → x.2 = .quiet) := by
+    (∀ x ∈ ms.zip (runConn c ms).2, (∀ p, x.1 ≠ .stats p) → x.2.out = .quiet) := by
   induction ms generalizing c with
   | nil => simp [runConn, PortView.run, runStats]
   | cons m ms ih =>
